@@ -240,7 +240,7 @@ static void explore_l1(Result& R, const Seed& seed, int depth) {
             if (nb.dead) { R["operations_that_reported_failure_by_exception"]++; R.tables["exceptions_per_operation"][kind_name(op.kind)]++; sc::release(nb.c); continue; }
             std::string key = sc::canon_cell(*nb.c) + char(nb.phase) + char(nb.stale);
             bool isnew = seen.insert(key).second; sc::release(nb.c);
-            if (isnew) { states++; if ((int)h2.size() < depth) frontier.push_back({h2, nb.phase, nb.stale}); if (states % 20000 == 1) R.sample("{\"level\":\"L1\",\"seed\":\"" + seed.name + "\",\"history\":" + hist_json(h2) + "}"); }
+            if (isnew) { R.mix(key); states++; if ((int)h2.size() < depth) frontier.push_back({h2, nb.phase, nb.stale}); if (states % 20000 == 1) R.sample("{\"level\":\"L1\",\"seed\":\"" + seed.name + "\",\"history\":" + hist_json(h2) + "}"); }
         }
     }
 }
@@ -346,7 +346,7 @@ static void explore_l2(Result& R, const Seed& seed, int depth) {
             if (op.kind == L2_REFINE_SWAP || op.kind == L2_REFINE_NOSWAP) { R["ops_inside_passes"] += g_pass.ops; R.tables["ops_inside_passes"]["split"] += g_pass.splits; R.tables["ops_inside_passes"]["merge"] += g_pass.merges; R.tables["ops_inside_passes"]["swap"] += g_pass.swaps; }
             size_t nlive = nb.c->get_nb_of_nodes();
             std::string key = sc::canon_cell(*nb.c) + char(nb.stale); bool isnew = seen.insert(key).second; sc::release(nb.c);
-            if (isnew) { states++; if ((int)h2.size() < depth && nlive <= 400) frontier.push_back(h2); if (states % 500 == 1) R.sample("{\"level\":\"L2\",\"seed\":\"" + seed.name + "\",\"history\":" + hist_json(h2) + "}"); }
+            if (isnew) { R.mix(key); states++; if ((int)h2.size() < depth && nlive <= 400) frontier.push_back(h2); if (states % 500 == 1) R.sample("{\"level\":\"L2\",\"seed\":\"" + seed.name + "\",\"history\":" + hist_json(h2) + "}"); }
         }
     }
 }
